@@ -292,22 +292,26 @@ func c13WaitAll(r *Run, e *c13Env, wg *sync.WaitGroup, label string, wit map[str
 		if e.active.Load() != 0 {
 			continue
 		}
-		gs := stableDump(150 * time.Millisecond)
+		seq0 := e.seq.Load()
+		stable, all := dumpPair(150 * time.Millisecond)
 		if dumpBlind.Load() {
 			r.Broken("C13: goroutine dumps cannot be parsed; hang verdicts are void")
 			return false
 		}
-		if e.active.Load() != 0 {
-			continue
+		if e.active.Load() != 0 || e.seq.Load() != seq0 {
+			continue // a loader ran meanwhile: things move
 		}
+		// every client goroutine inside the cache, from the SECOND dump; one that is not parked, or
+		// not identical in both dumps, can still make progress and release what the others wait for
 		parked, other := 0, 0
 		where := ""
-		for _, g := range gs {
+		for id, g := range all {
 			top := g.topTheineFrame()
 			if top == "" || strings.Contains(g.Text, "created by "+theineFrame) {
 				continue
 			}
-			if strings.HasPrefix(g.State, "sync.") || g.State == "semacquire" || g.State == "chan receive" {
+			_, same := stable[id]
+			if same && (strings.HasPrefix(g.State, "sync.") || g.State == "semacquire" || g.State == "chan receive") {
 				parked++
 				where = top + " [" + g.State + "]"
 			} else {
@@ -379,7 +383,13 @@ func c13Round(r *Run, idx int) {
 		r.Broken("build: %v", err)
 		return
 	}
-	defer e.lc.Close()
+	// Close takes every shard lock: after a verdict that a lock was left behind it would wait forever
+	closeOK := true
+	defer func() {
+		if closeOK {
+			e.lc.Close()
+		}
+	}()
 	st := e.lc.VerifStore()
 	// choose keys: all in one shard, or spread
 	var keys []int
@@ -455,6 +465,7 @@ func c13Round(r *Run, idx int) {
 	ok := c13WaitAll(r, e, &wg, label, wit)
 	close(stopBroadcast)
 	if !ok {
+		closeOK = false
 		return
 	}
 	invs := e.snapshotInvs()
@@ -473,6 +484,7 @@ func c13Round(r *Run, idx int) {
 		}(k)
 	}
 	if !c13WaitAll(r, e, &pw, label+" / Set on another key of the same shard afterwards", wit) {
+		closeOK = false
 		return
 	}
 	c13Judge(r, label, invs, gets, sets, wit)
@@ -708,6 +720,17 @@ func runC13(r *Run) {
 	r.Rule("case = one round on a fresh loading cache: 2-64 callers issue Gets (each in its own goroutine) on 1-8 keys (same or different shards) against a loader whose outcome per invocation (value / error / panic / Goexit) and duration come from the PRNG, with interleaved Set/Delete and late arrivals; or one scripted sequence (admission of loaded cost/TTL/oversize; leader parked before singleflight clean-up). Non-trivial = a round with >=2 callers and >=1 failing invocation, distinct by configuration + outcome sequence")
 	r.Assume("every loader outcome is unique (invocation number embedded in value / error / panic text), so a result identifies its invocation",
 		"panics reach callers wrapped in the package's internal error type; they are matched by text")
+	if only := mustAtoi(r.Args["only"], -1); only >= 0 {
+		// diagnosis: one round, repeated
+		for rep := 0; rep < mustAtoi(r.Args["reps"], 50); rep++ {
+			c13Round(r, only)
+			if r.NViolations() > 0 {
+				fmt.Printf("rep %d: violation; full goroutine dump follows\n%s\n", rep, allStacks())
+				return
+			}
+		}
+		return
+	}
 	n := r.Pick(640, 24000)
 	for i := 0; i < n; i++ {
 		if i%r.NShards != r.Shard {
